@@ -462,8 +462,8 @@ def _w1k1b(U):
 
 
 # ------------------------------------------------------------------ weights_all_band_groups: sea / anti-sea completion (CumDOS corollary)
-def _wabg_unit(nb, der):
-    @unit("C14", "TetraWeights.weights_all_band_groups[nb=%d,der=%d]" % (nb, der), scope="shape:nb=%d bands, 1 k-point, 2 Fermi levels" % nb, expect_min=3)
+def _wabg_unit(nb, der, prop="C14"):
+    @unit(prop, "TetraWeights.weights_all_band_groups[nb=%d,der=%d]" % (nb, der), scope="shape:nb=%d bands, 1 k-point, 2 Fermi levels" % nb, expect_min=3)
     def _w(U):
         from collections import defaultdict
         import z3
